@@ -28,10 +28,12 @@ def rows(df):
 def history(engine, length):
     with tmpdir() as d, quiet():
         name = os.path.join(d, "table." + ("pkl" if engine == "pickle" else "csv"))
-        mk = lambda: xyz.Sampler(xyz.Runner(fn, var_names=["x", "y"]), data_name=name, default_combos=CHOICES, engine=engine)
+        stored = rnd.choice([None, None, 1])     # constants stored on the runner; those given with a sowing take precedence
+        mk = lambda: xyz.Sampler(xyz.Runner(fn, var_names=["x", "y"], constants=({"c": stored} if stored else None)), data_name=name,
+                                 default_combos=CHOICES, engine=engine)
         s = mk()
         model = []
-        hist = []
+        hist = [dict(runner_constants=stored)]
         for step in range(length):
             if rnd.random() < 0.35:
                 s = mk()
@@ -47,7 +49,7 @@ def history(engine, length):
                 allowed["b"] = [42]
             hist.append((route, n, "override" if override else "", "generator" if gen else ""))
             np.random.seed(rnd.randint(0, 10 ** 6))
-            cval = 0
+            cval = stored or 0
             if route == "direct":
                 last = s.sample_combos(n, combos, verbosity=0)
             else:
